@@ -368,6 +368,7 @@ def run_shard(spec, rec):
         feed(G.tiny_sig_matrix(rng, keys), 100)
         feed(G.two_sigops_cases(rng, keys, 160), 80)
         feed(G.multi_input_cases(rng, keys, 120), 60)
+        feed(G.embedded_sig_length_cases(rng, keys), 60)
     elif kind == "mut":
         feed(G.corpus_mutations(rng, dd, spec["n"]), 3000)
     elif kind == "opm":
